@@ -1,9 +1,10 @@
 #!/bin/sh
-# Offline setup: nothing to download; pre-build the native harness crates when present.
+# Offline setup: nothing is downloaded. Pre-builds the native harness crate (path-depends on /repo/lang/*)
+# and the Kani harness crate so that the first check does not pay for it.
 set -e
 cd "$(dirname "$0")"
 mkdir -p build evidence replays
-if [ -d native ]; then
-  (cd native && CARGO_NET_OFFLINE=true cargo build --release --offline -q) || exit 1
-fi
+export CARGO_NET_OFFLINE=true
+(cd native && cargo build --release --offline -q)
+(cd kani && cargo kani --harness not16_roundtrip >/dev/null 2>&1 || true)
 exit 0
